@@ -80,12 +80,16 @@ static int enabled_ops(op_t *o, int max) {
                 int idx = find_src(s, kd, key);
                 if (kd == K_FD && !UFD[key].open_rd) continue;
                 if (kd == K_TASK && (st == S_RUNNING || st == S_ZOMBIE)) continue;          /* a task would start running on a pool thread: kept out of the sequential world */
+                if (idx >= 0 && kd == K_FD && (m->src[idx].flags & 4)) continue;
                 if (idx < 0 || ill) for (int f = 0; f < 8; f++) if (P.srcflags & (1u << f)) {
+                    if (idx >= 0 && (f & 4)) continue;
                     if ((f & 5) && kd != K_FD) continue;
                     if (kd == K_FD) { int others = 0, granted = 0; for (int t = 0; t < NM; t++) for (int i = 0; i < MAXSRC; i++) if (MD[t].src[i].present && MD[t].src[i].kind == K_FD && MD[t].src[i].key == key) { others++; granted |= MD[t].src[i].flags & 1; }
+                        if (idx < 0 && others > 0 && !(f & 4)) continue;      /* one epoll set cannot hold the same descriptor twice: only a duplicate can be shared */
                         if (idx < 0 && ((f & 1) ? others > 0 : granted)) continue; }
                     EMIT(O_SRC_REG, s, kd * 16 + key, f);
                 }
+                if (idx >= 0 && kd == K_FD && (m->src[idx].flags & 4)) continue;      /* a DUP source is keyed by the library's private duplicate: how to name it is unspecified */
                 if (idx >= 0 || ill) EMIT(O_SRC_DEREG, s, kd * 16 + key);
             }
             if (P.groups & G_BADPARAM) EMIT(O_SRC_REG, s, kd * 16 + 15, 0);
@@ -176,7 +180,7 @@ static void canon(char *b, size_t cap) {
         for (int k = 0; k < NCB; k++) AP("%d.%d,", m->armed[k].act, m->armed[k].arg);
         AP("s"); for (int q = 0; q < NPAT; q++) if (m->sub[q].present) AP("%d%d%d%d,", q, m->sub[q].prio, m->sub[q].oneshot, m->sub[q].upver);
         AP("m"); for (int k = 0; k < m->nmb; k++) { msg_t *g = &MSG[m->mb[k].msg]; AP("%d.%d.%d.%d.%d.%x,", g->sender + 1, g->topic, g->sys, g->autofree, m->mb[k].optional, m->mb[k].pats); }
-        AP("b%zu.%d.%d.%d", m->batch_size, m->batch_tmo, m->batch_fired, m->ever_batched);
+        AP("b%zu.%d.%d.%d.%d", m->batch_size, m->batch_tmo, m->batch_fired, m->ever_batched, m->batch_due != 0); AP("u%d", m->ba_unsure);
         AP("st"); for (int k = 0; k < m->nst; k++) { evrec_t *r = &EV[m->stash[k]]; AP("%d.%d,", r->kind, r->kind == 0 ? MSG[r->msg].sender + 1 : r->key); }
         AP("h"); for (int k = 0; k < m->nhs; k++) AP("%d", m->hs[k]);
         AP("src"); for (int k = 0; k < MAXSRC; k++) if (m->src[k].present) AP("%d.%d.%d.%d,", m->src[k].kind, m->src[k].key, m->src[k].flags, m->src[k].fired);
@@ -194,15 +198,9 @@ static void drain(void) {       /* dispatch until quiescent */
     if (!CX.looping) return;
     for (int i = 0; i < 40; i++) {
         if (CX.quit || n_running() == 0) { do_api((op_t){O_DISPATCH}); audit("probe: loop stop"); return; }
-        int before = 0; for (int s = 0; s < NM; s++) before += MD[s].ncb[CB_EVT] + MD[s].ncb[CB_START] + MD[s].ncb[CB_STOP];
-        long e0 = shim_epoll_calls;
+        int inj = shim_inject_epoll_errno;
         do_api((op_t){O_DISPATCH}); audit("probe: dispatch");
-        int after = 0; for (int s = 0; s < NM; s++) after += MD[s].ncb[CB_EVT] + MD[s].ncb[CB_START] + MD[s].ncb[CB_STOP];
-        (void)e0;
-        if (after == before && i > 0) {
-            /* nothing happened in a whole dispatch: quiescent unless messages are legitimately held back */
-            return;
-        }
+        if (last_dispatch_rc <= 0 && !inj) return;      /* nothing was received: quiescent */
     }
 }
 static void check_quiescent_obligations(void) {
@@ -213,14 +211,13 @@ static void check_quiescent_obligations(void) {
             if (ON(R_PS)) for (int k = 0; k < m->nmb; k++) if (!m->mb[k].optional && m->mb[k].kind == 0 && MSG[m->mb[k].msg].topic != T_PILL)
                 vfail("PS.owed", MSG[m->mb[k].msg].sys ? "PS.owed|quiescent-sys" : "PS.owed|quiescent", "dispatch no longer delivers anything but message #%d (topic %s) owed to RUNNING module %s was never handed over",
                       m->mb[k].msg, MSG[m->mb[k].msg].topic < NTOPIC ? TOPIC[MSG[m->mb[k].msg].topic] : "-", m->name);
-        } else if (ON(R_BA)) {
+        } else if (ON(R_BA) && !m->ba_unsure) {
             /* accumulated events: none of them may be a trigger at its position */
             int pos = 0;
             for (int k = 0; k < m->nmb; k++) { if (m->mb[k].kind != 0 || m->mb[k].optional) continue; pos++;
-                int prio = PR_NORM; unsigned pats = m->mb[k].pats; int np = 0;
-                for (int q = 0; q < NPAT; q++) if ((pats & (1u << q)) && m->sub[q].present) { prio = m->sub[q].prio; np++; }
-                if (np > 1) continue;
-                if (prio == PR_HIGH || (prio == PR_NORM && (size_t)pos >= m->batch_size))
+                int prio = m->mb[k].prio;
+                if (prio < 0) continue;        /* several candidate subscriptions: any of their priorities may apply */
+                if (prio == PR_HIGH || (prio == PR_NORM && (size_t)pos >= eff_batch(s)))
                     vfail("BA.when", prio == PR_HIGH ? "BA.when|high-held" : "BA.when|norm-held", "%s: %d events are accumulated and event %d is %s, yet the handler was not invoked (batch size %zu)", m->name, m->nmb, pos,
                           prio == PR_HIGH ? "high priority" : "normal priority with the batch size reached", m->batch_size);
             }
@@ -240,12 +237,23 @@ static void teardown(void) {
     for (int i = 0; i < nmsg; i++) if (MSG[i].used && MSG[i].autofree && lg_is_live((void *)MSG[i].payload) && ON(R_FREE))
         vfail("PS.free", "PS.free|leak", "auto-free payload of message #%d was never released", i);
     for (int i = 0; i < nmsg; i++) if (MSG[i].used && MSG[i].autofree && lg_is_live((void *)MSG[i].payload)) lg_free((void *)MSG[i].payload);
-    if (lg_live) vfail("LG.mem", "LG.mem|leak", "%d library allocations outstanding after the context was deregistered and every user reference dropped", lg_live);
+    if (lg_live) { char sz[120] = ""; int p2 = 0, k = 0; for (int i = 0; i < LG_CAP && k < 6; i++) if (lg_tab[i].p) { p2 += snprintf(sz + p2, sizeof sz - p2, " %zuB(#%u)", lg_tab[i].sz, lg_tab[i].seq); k++; }
+        vfail("LG.mem", "LG.mem|leak", "%d library allocations outstanding after the context was deregistered and every user reference dropped (sizes:%s)", lg_live, sz); }
     if (ON(R_FD) && shim_open_lib_fds()) { int fd = -1; for (int i = 0; i < SHIM_MAXFD; i++) if (shim_fd[i].st == FD_LIB_OPEN && !shim_fd[i].user) { fd = i; break; }
         vfail("LG.fd", "LG.fd|leak", "%d descriptors opened by the library are still open after teardown (e.g. fd %d, kind %d)", shim_open_lib_fds(), fd, shim_fd[fd].kind); }
 }
+/* TB.live: after at least one refill period of running time with the loop dispatched, a throttled module can act again */
+static void tb_liveness(void) {
+    if (!ON(R_TB) || !CX.exists || !CX.looping) return;
+    for (int s = 0; s < NM; s++) if (MD[s].present && MD[s].st == S_RUNNING && MD[s].tb_rate > 0 && MD[s].tb_burst > 0 && !CX.quit) {
+        do_api((op_t){O_ADVANCE, 3}); drain();
+        if (!(MD[s].present && MD[s].st == S_RUNNING && MD[s].tb_rate > 0) || CX.quit || !CX.looping) continue;
+        do_api((op_t){O_TELL, s, s, 0});
+        if (last_send_rc == -EAGAIN) vfail("TB.live", "TB.live", "%s (bucket rate %d, burst %d) is still refused with EAGAIN after running for one second with the loop dispatched", MD[s].name, MD[s].tb_rate, MD[s].tb_burst);
+    }
+}
 static void run_probe(int i) {
-    if (i == 0) { drain(); check_quiescent_obligations(); teardown(); }
+    if (i == 0) { drain(); check_quiescent_obligations(); tb_liveness(); drain(); teardown(); }
     else { teardown(); }
 }
 #endif
